@@ -877,7 +877,7 @@ pub mod rare {
         fn visit_f64(&self, data: [u8; 8]) -> f64 { f64::from_le_bytes(data) }
     }
 
-    pub const FIELDS: &[&str] = &["c", "bb", "by", "us", "un", "nt", "ts", "arr", "big", "ubig", "e1", "e2", "ig", "hm", "ids", "s", "x", "y", "sv", "hv", "bs", "cow", "raw"];
+    pub const FIELDS: &[&str] = &["c", "bb", "by", "us", "un", "nt", "ts", "arr", "big", "ubig", "e1", "e2", "ig", "hm", "ids", "s", "x", "y", "sv", "hv", "vv", "bs", "cow", "raw"];
     pub const VARIANTS: &[&str] = &["Unit", "Newt", "Tup", "St"];
     pub fn field_id(name: &str) -> u16 { 0x3000 + FIELDS.iter().position(|f| *f == name).unwrap() as u16 }
     pub fn variant_id(name: &str) -> u16 { 0x3100 + VARIANTS.iter().position(|f| *f == name).unwrap() as u16 }
@@ -971,7 +971,7 @@ pub mod rare {
         pub c: Option<char>, pub bb: Option<BBuf>, pub by: Option<Byt>, pub us: Option<UnitS>, pub un: Option<()>,
         pub nt: Option<Newt>, pub ts: Option<Tup>, pub arr: Option<[i32; 2]>, pub big: Option<i128>, pub ubig: Option<u128>,
         pub e1: Option<En>, pub e2: Option<En>, pub ig: Option<IgnoredAny>, pub hm: Option<HM>, pub ids: Option<Vec<u16>>,
-        pub s: Option<String>, pub x: Option<f32>, pub y: Option<f64>, pub sv: Option<StrVia>, pub hv: Option<HV>,
+        pub s: Option<String>, pub x: Option<f32>, pub y: Option<f64>, pub sv: Option<StrVia>, pub hv: Option<HV>, pub vv: Option<Vec<Vec<i32>>>,
     }
     /// borrowed targets: the tape and the slice path
     #[derive(Deserialize, Debug)]
@@ -1045,10 +1045,7 @@ pub mod rare {
         }).collect::<Vec<_>>().join("  VERSUS  "))
     }
 
-    /// the candidate finding a document probes (read off the real tape): a root field `us` / `un` (unit targets:
-    /// the tape path forwards them to `deserialize_any` and the unit visitors reject every token, from_slice /
-    /// from_reader answer `visit_unit` after skipping the value), a root field `big` / `ubig` holding an integer
-    /// (i128 / u128 targets: supported by the tape path only), `arr` / `ts` holding more than two elements (the
+    /// the known finding a document probes (read off the real tape): `arr` / `ts` holding more than two elements (the
     /// sequential paths insist on the closing lexeme after a tuple, the tape path leaves the rest unread)
     pub fn probe_kind(data: &[u8], tab: &[(u16, String)]) -> Option<&'static str> {
         use jomini::BinaryToken as T;
@@ -1075,7 +1072,34 @@ pub mod rare {
             }
             i = match v { T::Array(e) | T::Object(e) => e + 1, _ => i + 2 };
         }
-        if unit { Some("unit-target-tape-rejects") } else if wide { Some("i128-target-sequential-unsupported") } else if long { Some("tuple-longer-than-target") } else { None }
+        let _ = (unit, wide);
+        if long { Some("tuple-longer-than-target") } else { None }
+    }
+
+    /// former findings the document exercises (regression probes; every path must agree now): a root field `us` / `un`
+    /// (unit targets, tape path repaired in /repo 6e6603e), a root field `big` / `ubig` holding an integer (i128 / u128
+    /// targets, sequential paths repaired in /repo dc586a0)
+    pub fn repaired_probes(data: &[u8], tab: &[(u16, String)]) -> Vec<&'static str> {
+        use jomini::BinaryToken as T;
+        let mut out = vec![];
+        let tape = match BinaryTape::from_slice(data) { Ok(t) => t, Err(_) => return out };
+        let toks = tape.tokens();
+        let mut i = 0;
+        while i + 1 < toks.len() {
+            let name: Option<String> = match &toks[i] {
+                T::Unquoted(s) | T::Quoted(s) => Some(String::from_utf8_lossy(s.as_bytes()).to_string()),
+                T::Token(id) => tab.iter().find(|e| e.0 == *id).map(|e| e.1.clone()),
+                _ => None,
+            };
+            let v = &toks[i + 1];
+            match name.as_deref() {
+                Some("us") | Some("un") => if !out.contains(&"unit-target-tape-rejects") { out.push("unit-target-tape-rejects") },
+                Some("big") | Some("ubig") => if matches!(v, T::I32(_) | T::I64(_) | T::U32(_) | T::U64(_)) && !out.contains(&"i128-target-sequential-unsupported") { out.push("i128-target-sequential-unsupported") },
+                _ => {}
+            }
+            i = match v { T::Array(e) | T::Object(e) => e + 1, _ => i + 2 };
+        }
+        out
     }
 
     pub fn run(data: &[u8], obs: &mut Obs, case: &dyn Fn() -> String) -> String {
@@ -1119,6 +1143,7 @@ pub mod rare {
             if !dangling { if let Some(d) = disagree(&rs) { obs.violation("c04-rare-root-map-disagree", &case(), &d); } }
             obs.count(if rs[0].1.starts_with("err") { "rare:root-map:err" } else { "rare:root-map:ok" });
         }
+        let mut any_difference = false;
         let mut first_owned = String::new();
         let mut reported: Vec<&'static str> = vec![];
         let mut per_flavor: Vec<String> = vec![];
@@ -1180,6 +1205,7 @@ pub mod rare {
                     if dangling {
                         if collapse(&t.1) != collapse(&q.1) && strat == FailedResolveStrategy::Error && flavor == 0 { obs.count("rare:dangling-byte:slice-based-accept-reader-refuses"); }
                     } else if collapse(&t.1) != collapse(&q.1) {
+                        any_difference = true;
                         let kind = probe_kind(data, &tab).unwrap_or("c04-rare-paths-disagree");
                         // (a candidate finding is reported once per case, not once per strategy x flavor)
                         if kind == "c04-rare-paths-disagree" || !reported.contains(&kind) { reported.push(kind); obs.violation(kind, &case(), &format!("{}/f{}: tape paths -> {}  VERSUS  from_slice / from_reader -> {}", sname, flavor, t.1, q.1)); }
@@ -1194,6 +1220,7 @@ pub mod rare {
                 if strat == FailedResolveStrategy::Error { per_flavor.push(all[0].1.clone()); }
             }
         }
+        if !any_difference && !dangling { for k in repaired_probes(data, &tab) { obs.count(&format!("probe:{}-repaired:paths-agree", k)); } }
         if per_flavor.len() == 2 && per_flavor[0] != per_flavor[1] { obs.count("rare:flavors-differ"); } else { obs.count("rare:flavors-same"); }
         first_owned
     }
@@ -1225,10 +1252,8 @@ pub mod rare {
     pub fn gen_doc(rng: &mut Rng, misfits: bool, probe: Option<&str>) -> BDoc {
         let mut fields = vec![];
         for name in FIELDS {
-            // the fields the three candidate findings are about appear only in documents that probe them
-            let special = matches!(*name, "us" | "un" | "big" | "ubig");
+            // (too-long arrays, the known finding tuple-longer-than-target, appear only in the documents that probe it)
             let wanted = match probe { Some("unit") => matches!(*name, "us" | "un"), Some("wide") => matches!(*name, "big" | "ubig"), Some("long") => *name == "arr" || *name == "ts", _ => false };
-            if special && !wanted { continue; }
             if !(wanted && rng.chance(2, 3)) && !rng.chance(1, 3) { continue; }
             let fit: BNode = match *name {
                 "c" => BNode::Leaf(match rng.below(3) { 0 => BLeaf::Quoted(vec![b'a' + rng.below(26) as u8]), 1 => BLeaf::Unquoted(vec![b'A' + rng.below(26) as u8]), _ => BLeaf::Id(0x3200) }),
@@ -1244,6 +1269,7 @@ pub mod rare {
                 "e1" => BNode::Leaf(if rng.chance(1, 2) { BLeaf::Id(variant_id("Unit")) } else { BLeaf::Quoted(b"Unit".to_vec()) }),
                 "e2" => { let v = VARIANTS[rng.below(4)]; BNode::Leaf(if rng.chance(1, 2) { BLeaf::Id(variant_id(v)) } else { BLeaf::Unquoted(v.as_bytes().to_vec()) }) }
                 "hv" => { let n = rng.below(3); BNode::Obj((0..n).map(|i| BField { ghosts: 0, key: if rng.chance(1, 2) { BLeaf::Id(0x3200 + i as u16) } else { BLeaf::Unquoted(vec![b'k', b'0' + i as u8]) }, val: BNode::Arr((0..rng.below(3)).map(|_| i32v(rng)).collect()) }).collect()) }
+                "vv" => { let n = rng.below(4); BNode::Arr((0..n).map(|_| BNode::Arr((0..rng.below(3)).map(|_| i32v(rng)).collect())).collect()) }
                 "hm" => { let n = rng.below(4); BNode::Obj((0..n).map(|i| BField { ghosts: if rng.chance(1, 8) { 1 } else { 0 }, key: BLeaf::Id(0x3000 + (i as u16) * 7 + rng.below(5) as u16), val: i32v(rng) }).collect()) }
                 "ids" => { let n = rng.below(4); BNode::Arr((0..n).map(|_| BNode::Leaf(BLeaf::Id(0x2f00 + rng.below(0x400) as u16))).collect()) }
                 "s" => match rng.below(3) { 0 => BNode::Leaf(BLeaf::Id(0x3201)), 1 => BNode::Leaf(BLeaf::Id(0x4444)), _ => { let na = rng.chance(1, 4); strv(rng, na) } },
@@ -1634,7 +1660,8 @@ pub fn gen(g: &mut Gen) {
     // rarely used real target types x resolver kinds x flavors (implementation-only)
     let mr = g.budget(250, 5000);
     for i in 0..mr {
-        // a few documents per run probe the three candidate findings (reported under their exact kinds)
+        // a few documents per run aim at the known finding tuple-longer-than-target (reported under its exact kind) and at
+        // the two repaired ones (regression probes: unit targets, i128 / u128 targets)
         let probe = if i < 36 { Some(["unit", "wide", "long"][i % 3]) } else { None };
         let bd = rare::gen_doc(&mut g.rng, probe.is_none() && i % 3 == 2, probe);
         let mut bytes = render_bdoc(&bd);
